@@ -29,8 +29,15 @@ def run(name):
 
 names = sorted(n for n in os.listdir(os.path.join(HERE, 'seeded')) if os.path.exists(os.path.join(HERE, 'seeded', n, 'patch.diff')))
 rows = []
+# --new: run only the changes that have no recorded result yet; the others keep the result recorded in their meta.json
+ONLY_NEW = '--new' in sys.argv
+todo = [n for n in names if not ONLY_NEW or 'caught_by' not in json.load(open(os.path.join(HERE, 'seeded', n, 'meta.json')))]
+for n in names:
+    if n not in todo:
+        meta = json.load(open(os.path.join(HERE, 'seeded', n, 'meta.json')))
+        rows.append((n, meta, ', '.join(x['check'] for x in meta.get('caught_by', [])) or 'NOT DETECTED', meta.get('analysis_broken_in', [])))
 with cf.ThreadPoolExecutor(8) as ex:
-    for name, out in ex.map(run, names):
+    for name, out in ex.map(run, todo):
         mp = os.path.join(HERE, 'seeded', name, 'meta.json')
         meta = json.load(open(mp))
         if out is None:
@@ -42,6 +49,7 @@ with cf.ThreadPoolExecutor(8) as ex:
         meta['analysis_broken_in'] = broken
         json.dump(meta, open(mp, 'w'), indent=1)
         rows.append((name, meta, ', '.join(p for p, _, _ in fired) or 'NOT DETECTED', broken))
+rows.sort(key=lambda r: r[0])
 with open(os.path.join(HERE, 'seeded', 'RESULTS.md'), 'w') as fh:
     fh.write('# Independent seeded changes and the checks that catch them\n\n')
     fh.write('Each change was written by a fresh sub-agent that saw only the property text and its own worktree; each was confirmed\n'
